@@ -154,7 +154,42 @@ Section C04.
   Proof. exact (scsv_enforced_all hash fin prf_of suite_ok cmin cmax smin smax c_hello s_ch_ok s_reply12 c_extra_ok
                                   c_flight12 s_flight_ok c_flight_ok s_nst c_key s_key s_resume c_sess_key
                                   s_hrr c_hello2 s_reply13 c_psk_keys c_flight13 psk_alg). Qed.
+  (* ---- fallback retry (RFC 7507), end to end ------------------------------------------------ *)
+  (* the client side is scsv_sent_when_requested below; composed with scsv_enforced: a hello built by
+     client_first_hello with sendFallbackSCSV, WITH OR WITHOUT an offered session, for which the server
+     would select a version below its maximum, never makes the server complete -- full or abbreviated
+     handshake -- when it arrives as sent (no hypothesis at all) ... *)
+  Theorem fallback_retry_refused : forall ver rand fsid real session exts v,
+    c_hello = client_first_hello ver rand fsid real true session exts ->
+    sel_version smin smax c_hello = SelOk v -> v < smax ->
+    (forall a1 a2 a3 a4, get_ch (a1 [MCH c_hello]) = Some c_hello -> o_s (R12 a1 a2 a3 a4) = None) /\
+    (forall a1 a2 a3, get_ch (a1 [MCH c_hello]) = Some c_hello -> o_s (R12r a1 a2 a3) = None).
+  Proof. exact (fallback_refused hash fin prf_of suite_ok cmin cmax smin smax c_hello s_ch_ok s_reply12 c_extra_ok
+                                 c_flight12 s_flight_ok c_flight_ok s_nst c_key s_key s_resume c_sess_key). Qed.
+
+  (* ... and whatever the attacker does to it, the two endpoints never both complete *)
+  Theorem fallback_retry_refused_ideal : forall ver rand fsid real session exts v,
+    c_hello = client_first_hello ver rand fsid real true session exts ->
+    sel_version smin smax c_hello = SelOk v -> v < smax ->
+    (forall a1 a2 a3 a4 c s, o_c (R12 a1 a2 a3 a4) = Some c -> o_s (R12 a1 a2 a3 a4) = Some s ->
+       unforgeable fin (R12 a1 a2 a3 a4) -> False) /\
+    (forall a1 a2 a3 c s, o_c (R12r a1 a2 a3) = Some c -> o_s (R12r a1 a2 a3) = Some s ->
+       unforgeable fin (R12r a1 a2 a3) -> False).
+  Proof. exact (fallback_refused_ideal hash fin prf_of suite_ok cmin cmax smin smax c_hello s_ch_ok s_reply12 c_extra_ok
+                                       c_flight12 s_flight_ok c_flight_ok s_nst c_key s_key s_resume c_sess_key
+                                       H_ideal_hash H_ideal_prf). Qed.
 End C04.
+
+(* ---- the client sends TLS_FALLBACK_SCSV whenever settings.sendFallbackSCSV, for every configuration,
+   with or without an offered session (both ClientHello constructions pass wireCipherSuites) ---------- *)
+Theorem scsv_sent_when_requested : forall ver rand fsid real session exts,
+  memZ FALLBACK_SCSV (ch_suites (client_first_hello ver rand fsid real true session exts)) = true.
+Proof. exact scsv_sent. Qed.
+
+Theorem scsv_absent_when_not_requested : forall ver rand fsid real session exts,
+  memZ FALLBACK_SCSV real = false ->
+  memZ FALLBACK_SCSV (ch_suites (client_first_hello ver rand fsid real false session exts)) = false.
+Proof. exact scsv_not_sent_unrequested. Qed.
 
 (* ---- second ClientHello after HelloRetryRequest -------------------------------------------- *)
 (* the server goes on only if the second hello equals the first in everything outside the
@@ -168,10 +203,12 @@ Theorem hrr_second_hello_bound : forall cookie group c1 c2,
   exists share, find_ext X_KEYSHARE (ch_exts c2) = Some [group; share].
 Proof. exact hrr_second_ok_fixed. Qed.
 
-(* ---- tie: the code's transcript / sentinel / SCSV / comparison sites are the modelled ones ---- *)
+(* ---- tie: the code's transcript / sentinel / SCSV (server check AND client emission) / comparison sites
+   are the modelled ones ---- *)
 Theorem transcript_sites_as_modelled :
   hash_sites = expected_hash_sites /\ guard_sites = expected_guard_sites /\
-  server_hello_sites = expected_server_hello_sites /\ guard_positions = expected_guard_positions.
+  server_hello_sites = expected_server_hello_sites /\ guard_positions = expected_guard_positions /\
+  client_hello_sites = expected_client_hello_sites /\ client_suite_sites = expected_client_suite_sites.
 Proof. exact sites_as_expected. Qed.
 
 (* ---- the hypotheses are satisfiable, and every flow has a completing run -------------------- *)
@@ -197,3 +234,9 @@ Proof. exact ex13_ok. Qed.
 Example stripping_tls13_from_the_hello_is_stopped_by_the_sentinel :
   o_stage (ex_run12_dg strip13 idf idf idf) = (1, ALERT_ILLEGAL_PARAMETER).
 Proof. exact ex_downgrade_stopped. Qed.
+
+Example fallback_hello_with_cached_session_carries_scsv :
+  ch_suites (client_first_hello 771 1 2 [49199; 156] true (Some 300) []) = [255; 49199; 156; 22016] /\
+  ch_sid (client_first_hello 771 1 2 [49199; 156] true (Some 300) []) = 300 /\
+  sel_version 769 772 (client_first_hello 771 1 2 [49199; 156] true (Some 300) []) = SelOk 771.
+Proof. exact ex_fallback_hello. Qed.
